@@ -10,6 +10,22 @@ def rx_answer(pat, s):
     return bool(re.compile(pat).match(s))
 
 
+def find_need(rep):
+    if isinstance(rep, dict):
+        if 'need' in rep and isinstance(rep['need'], str):
+            return rep['need']
+        for v in rep.values():
+            r = find_need(v)
+            if r is not None:
+                return r
+    elif isinstance(rep, list):
+        for v in rep:
+            r = find_need(v)
+            if r is not None:
+                return r
+    return None
+
+
 def base_request(case, port):
     req = {'port': port,
            'schema': codec.enc_val(case['schema']),
@@ -29,9 +45,11 @@ def ask(drv, req, max_rounds=200):
     """ask, answering regex-oracle questions until the model has what it needs"""
     for _ in range(max_rounds):
         rep = drv.ask(req)
-        if isinstance(rep, dict) and 'need' in rep:
-            kind, pat, s = rep['need'].split('\t', 2)
-            assert kind == 'rx'
+        need = find_need(rep)
+        if need is not None:
+            kind, pat, s = need.split('\t', 2)
+            if kind != 'rx':
+                return rep
             req['env']['rx'].append([pat, s, rx_answer(pat, s)])
             continue
         return rep
